@@ -109,6 +109,76 @@ theorem matchLine_noColon (rep : Bool) {l : Str} (h : ':' ∉ l) (b : Bool) : ma
   · have : ':' ∉ l.dropWhile isSpace := fun hx => h ((List.dropWhile_sublist _).subset hx)
     rw [scanTag_noColon this]; rfl
 
+/-! ### the converse: what a matched line looks like -/
+
+theorem mem_takeWhile_true {q : Char → Bool} : ∀ {l : Str} {x : Char}, x ∈ l.takeWhile q → q x = true
+  | [], _, h => by simp at h
+  | a :: l, x, h => by
+    simp only [List.takeWhile_cons] at h
+    split at h
+    · simp only [List.mem_cons] at h
+      rcases h with rfl | h
+      · assumption
+      · exact mem_takeWhile_true h
+    · simp at h
+
+theorem afterBlanksColon_some {s rest : Str} (h : afterBlanksColon s = some rest) :
+    ∃ mid, s = mid ++ ':' :: rest ∧ ∀ c ∈ mid, isSpace c = true := by
+  unfold afterBlanksColon at h
+  split at h
+  · rename_i r heq
+    simp only [Option.some.injEq] at h
+    subst h
+    exact ⟨s.takeWhile isSpace, by rw [← heq, List.takeWhile_append_dropWhile],
+      fun c hc => mem_takeWhile_true hc⟩
+  · simp at h
+
+theorem scanTag_some : ∀ {s t rest : Str}, scanTag s = some (t, rest) →
+    ∃ mid, s = t ++ (mid ++ ':' :: rest) ∧ t ≠ [] ∧ (∀ c ∈ t, isSpace c = false) ∧
+      (∀ c ∈ mid, isSpace c = true)
+  | [], _, _, h => by simp [scanTag] at h
+  | c :: r, t, rest, h => by
+    simp only [scanTag] at h
+    split at h
+    · simp at h
+    · rename_i hc
+      have hc' : isSpace c = false := by simpa using hc
+      split at h
+      · rename_i rest' hab
+        simp only [Option.some.injEq, Prod.mk.injEq] at h
+        obtain ⟨rfl, rfl⟩ := h
+        obtain ⟨mid, hm, hsp⟩ := afterBlanksColon_some hab
+        exact ⟨mid, by rw [hm]; rfl, by simp, by simpa using hc', hsp⟩
+      · cases hs : scanTag r with
+        | none => rw [hs] at h; simp at h
+        | some tr =>
+          rw [hs] at h
+          simp only [Option.map_some, Option.some.injEq, Prod.mk.injEq] at h
+          obtain ⟨rfl, rfl⟩ := h
+          obtain ⟨mid, hm, hne, hns, hsp⟩ := scanTag_some (t := tr.1) (rest := tr.2) (by rw [hs])
+          refine ⟨mid, by rw [hm]; rfl, by simp, ?_, hsp⟩
+          intro x hx
+          simp only [List.mem_cons] at hx
+          rcases hx with rfl | hx
+          · exact hc'
+          · exact hns x hx
+
+/-- every line the matcher accepts has the shape blanks, tag, blanks, colon, rest: the tag is a
+non-empty run of non-blanks and the body is the rest minus one optional blank -/
+theorem matchLine_some {rep : Bool} {l t b : Str} (h : matchLine rep (l, true) = some (t, b)) :
+    ∃ lead mid rest, l = lead ++ (t ++ (mid ++ ':' :: rest)) ∧ b = dropOneSpace rest ∧ t ≠ [] ∧
+      (∀ c ∈ lead, isSpace c = true) ∧ (∀ c ∈ t, isSpace c = false) ∧ (∀ c ∈ mid, isSpace c = true) := by
+  simp only [matchLine, Bool.not_true, Bool.false_and, Bool.false_eq_true, if_false] at h
+  cases hs : scanTag (l.dropWhile isSpace) with
+  | none => rw [hs] at h; simp at h
+  | some tr =>
+    rw [hs] at h
+    simp only [Option.map_some, Option.some.injEq, Prod.mk.injEq] at h
+    obtain ⟨rfl, rfl⟩ := h
+    obtain ⟨mid, hm, hne, hns, hsp⟩ := scanTag_some (t := tr.1) (rest := tr.2) (by rw [hs])
+    exact ⟨l.takeWhile isSpace, mid, tr.2, by rw [← hm, List.takeWhile_append_dropWhile], rfl, hne,
+      fun c hc => mem_takeWhile_true hc, hns, hsp⟩
+
 /-! ### `%lines` -/
 
 theorem assoc_pushKey : ∀ (m : Tab) (k v t : Str),
